@@ -26,3 +26,13 @@ func (s *SessionManager) VerifDropBridge(tunnelID string) {
 func (s *SessionManager) VerifHasControlRecord(connID string) bool {
 	return s.getControlConnectionByConnID(connID) != nil
 }
+
+// VerifForgetBridge removes a bridge from tunnelBridges WITHOUT closing it (the harness then closes the transports of its two
+// ends, so that the bridge ends through its own lifecycle goroutine exactly as it does when a client disconnects).
+func (s *SessionManager) VerifForgetBridge(tunnelID string) *TunnelBridge {
+	s.bridgeLock.Lock()
+	b := s.tunnelBridges[tunnelID]
+	delete(s.tunnelBridges, tunnelID)
+	s.bridgeLock.Unlock()
+	return b
+}
